@@ -57,7 +57,20 @@ var c15Kinds = []string{
 	"[1, 2, 3][0:2]",
 	"{\nfd = (a) -> a[1:#a]\nfd(gr)\n}",
 	"gr[ga - 3]",
+	"{\nx = 1\nx = x + 40000\nx\n}",
+	"{\nx = 1\nx = 65535 + x\ny = x + 32768\nz = y + 32767\n[x, y, z]\n}",
+	"[7 / 2.0, 7 / 2, 2.0 * 3, 2 * 3, 100 / 100.0, 100 / 100]",
+	"[7 / 2, 7 / 2.0, ga / 5.0, ga / 5]",
 	"{\nfc = (a, b) -> {\nc = a + b\nfor e <- fromto(0, c) {\nif e > 1 {\nreturn e\n}\n}\n0\n}\nfc(1, 2)\n}",
+}
+
+// c15Want: closed-form values of statement kinds whose point is the value itself (the twin without
+// fill runs on the same interpreter and would share a wrong constant or a wrapped step).
+var c15Want = map[string]string{
+	"{\nx = 1\nx = x + 40000\nx\n}":                                       "40001",
+	"{\nx = 1\nx = 65535 + x\ny = x + 32768\nz = y + 32767\n[x, y, z]\n}": "[65536, 98304, 131071]",
+	"[7 / 2.0, 7 / 2, 2.0 * 3, 2 * 3, 100 / 100.0, 100 / 100]":            "[3.5, 3, 6, 6, 1, 1]",
+	"[7 / 2, 7 / 2.0, ga / 5.0, ga / 5]":                                  "[3, 3.5, 1, 1]",
 }
 
 func (C15) Cases(t core.Tier) int {
@@ -66,7 +79,7 @@ func (C15) Cases(t core.Tier) int {
 }
 func (C15) Exhaustive(t core.Tier) bool { return t == core.Thorough } // quick samples the jump-distance table
 func (C15) Rule() string {
-	return "Fault = capacity exhaustion: before the statement under test the data segment is filled (with nil entries, as a long session would have filled it with constants) to B+delta for B in {2^15, 2^16}. Enumerated completely in both tiers: B x delta in -14..+3 x 20 statement kinds (literals, global name references, calls, if/while/for nil placeholders, function values, strings, arrays, indexing and slicing of globals, literals and parameters, writes, a function with a loop) x REPL/script flavour = 1440 cases, so every data-segment entry a statement creates lands on both sides of each boundary; plus 10 large-body cases (functions with 2^15-2..2^15+2 locals, bodies of about 2^15 statements) in both tiers; plus jump-distance cases: 14 templates (if taken/skipped, if-else with the long branch taken/skipped on either side, while run 0/1/3 times, function body called/not called, for body, iterator body, wide units) whose statement is made exactly L instructions long for L = limit+d, limit in {2^15-1, 2^16-1}, using locals only and no literal in the repeated unit so that only the back-patched jump distance grows: d in -3..+9 enumerated completely in thorough (364 cases), 9 (limit, d) pairs per template in quick (126 cases), each with a closed-form expected value; 14 refusal cases (a script whose middle statement cannot be encoded and begins with write(\"LEAK\"), run through the real node.Loop on a real file: nothing of the refused statement may execute and, if the session survives the refusal, the next statement must print what it prints in a fresh session); 4 late-definition cases (functions, closures, generators, loops and recursion defined and used after the session's code has passed 2^16 instructions, closed-form results). Seeded runs add generated sessions with the fill placed at a drawn point and delta in -60..+20. Oracle: either compilation is refused before any instruction of the statement runs (an error or a compile-time panic), or (i) every operand of every newly emitted instruction decodes to an in-range address (DS index in [0,len(DS)), jump target in [0,len(CS)], function entry inside CS, local index below the local count) and (ii) value, output and error class equal those of a twin session with no fill. Non-trivial = the statement's new DS entries or jumps straddle or exceed a boundary. Distinct = (boundary, delta, kind, flavour) or hash of the generated session."
+	return "Fault = capacity exhaustion: before the statement under test the data segment is filled (with nil entries, as a long session would have filled it with constants) to B+delta for B in {2^15, 2^16}. Enumerated completely in both tiers: B x delta in -14..+3 x 24 statement kinds (literals, global name references, calls, if/while/for nil placeholders, function values, strings, arrays, indexing and slicing of globals, literals and parameters, writes, a function with a loop) x REPL/script flavour = 1728 cases, so every data-segment entry a statement creates lands on both sides of each boundary; plus 10 large-body cases (functions with 2^15-2..2^15+2 locals, bodies of about 2^15 statements) in both tiers; plus jump-distance cases: 14 templates (if taken/skipped, if-else with the long branch taken/skipped on either side, while run 0/1/3 times, function body called/not called, for body, iterator body, wide units) whose statement is made exactly L instructions long for L = limit+d, limit in {2^15-1, 2^16-1}, using locals only and no literal in the repeated unit so that only the back-patched jump distance grows: d in -3..+9 enumerated completely in thorough (364 cases), 9 (limit, d) pairs per template in quick (126 cases), each with a closed-form expected value; 14 refusal cases (a script whose middle statement cannot be encoded and begins with write(\"LEAK\"), run through the real node.Loop on a real file: nothing of the refused statement may execute and, if the session survives the refusal, the next statement must print what it prints in a fresh session); 4 late-definition cases (functions, closures, generators, loops and recursion defined and used after the session's code has passed 2^16 instructions, closed-form results). Seeded runs add generated sessions with the fill placed at a drawn point and delta in -60..+20. Oracle: either compilation is refused before any instruction of the statement runs (an error or a compile-time panic), or (i) every operand of every newly emitted instruction decodes to an in-range address (DS index in [0,len(DS)), jump target in [0,len(CS)], function entry inside CS, local index below the local count) and (ii) value, output and error class equal those of a twin session with no fill. Non-trivial = the statement's new DS entries or jumps straddle or exceed a boundary. Distinct = (boundary, delta, kind, flavour) or hash of the generated session."
 }
 func (C15) Assumptions() []string {
 	return []string{
@@ -234,6 +247,10 @@ func c15One(defs []string, target int, stmt string, repl bool, r *core.Result, h
 	}
 	if a.Kind == sess.KPanic {
 		r.Violation = &core.Violation{Clause: "run-panic", Detail: fmt.Sprintf("accepted at compile time, then Go panic while running: %s", a.Err), History: h}
+		return
+	}
+	if want, ok := c15Want[stmt]; ok && repl && a.Kind == sess.KValue && a.Val != want {
+		r.Violation = &core.Violation{Clause: "constant-or-step-value", Detail: fmt.Sprintf("%s gave %s, want %s", trunc(stmt, 60), a.Val, want), History: h}
 		return
 	}
 	if !a.Same(b) {
